@@ -816,6 +816,38 @@ def translate_canonical():
                 f'def rot_needs_inversion {sig} : Bool :=\n  M.needsInversion 2 1 0 ⟨q_0, q_1, q_2, q_3⟩\ndef rot_needs_inversion_translated : Bool := false'), f'fallback: {e}'
 
 
+# ---- Rotation.inv: the sign vector the stored quaternion is multiplied with; the flag is kept (pinned as text) --------------
+INV_GLUE = ['improper = self._is_improper.clone()', 'return self.__class__(quaternions, inversion=improper, copy=False)']
+SITE_PROPS['rot_inv'] = 'C13'
+SITE_ALSO['rot_inv'] = ['C12']
+
+
+def translate_rot_inv():
+    U = py2lean.Untranslatable
+    sig = '(q_0 : K) (q_1 : K) (q_2 : K) (q_3 : K)'
+    try:
+        tree = ast.parse((SRC / 'data/Rotation.py').read_text())
+        fn = _find(tree, 'Rotation', 'inv')
+        body = [st for st in fn.body if not (isinstance(st, ast.Expr) and isinstance(st.value, ast.Constant))]
+        texts = [ast.unparse(st) for st in body]
+        if len(body) != 4 or texts[1] != INV_GLUE[0] or texts[3] != INV_GLUE[1] or not texts[2].startswith('if self._single:'):
+            raise U('statements of inv() were rewritten')
+        st = body[0]
+        if not (isinstance(st, ast.Assign) and ast.unparse(st.targets[0]) == 'quaternions' and isinstance(st.value, ast.BinOp) and isinstance(st.value.op, ast.Mult)
+                and ast.unparse(st.value.left) == 'self._quaternions' and isinstance(st.value.right, ast.Call) and ast.unparse(st.value.right.func) == 'torch.tensor'
+                and len(st.value.right.args) == 1 and isinstance(st.value.right.args[0], ast.List)):
+            raise U(f'quaternions = {ast.unparse(st.value)[:50]}')
+        signs = [ast.literal_eval(e) for e in st.value.right.args[0].elts]
+        if len(signs) != 4 or any(v not in (-1, 1) for v in signs):
+            raise U(f'sign vector {signs}')
+        comps = ', '.join(f'(q_{i} * ({"-1" if v < 0 else "1"} : K))' for i, v in enumerate(signs))
+        return (f'/-- translated from `data/Rotation.py:inv (line {fn.lineno})`: `self._quaternions * torch.tensor({signs})`; the improper flag is kept -/\n'
+                f'def rot_inv {sig} : M.Q K :=\n  ⟨{comps}⟩\ndef rot_inv_translated : Bool := true'), 'translated'
+    except (U, OSError, SyntaxError, ValueError) as e:
+        return (f'/-- FALLBACK (source outside the translatable fragment: {str(e)[:100]}): the hand-written model -/\n'
+                f'def rot_inv {sig} : M.Q K :=\n  M.Q.conj ⟨q_0, q_1, q_2, q_3⟩\ndef rot_inv_translated : Bool := false'), f'fallback: {e}'
+
+
 def _find(tree, cls, func):
     scope = tree
     if cls is not None:
@@ -886,6 +918,10 @@ def generate():
         text, st = translate_rot_site(site)
         out += [text, '']
         status[site['name']] = st
+    out += ['section RotInv', 'variable {K : Type} [Mul K] [Neg K] [OfNat K 1]', '']
+    text, st = translate_rot_inv()
+    out += [text, '', 'end RotInv', '']
+    status['rot_inv'] = st
     out += ['end Rot', '', 'section RotOrder', 'variable {K : Type} [LT K] [DecidableLT K] [BEq K] [OfNat K 0] [Neg K]', '']
     text, st = translate_canonical()
     out += [text, '']
